@@ -19,7 +19,7 @@ from vlib import layout_oracle as lo  # noqa: E402
 ID = "C03"
 LEVEL = "exploration"
 NEEDS_SIMMPI = True
-RULE = ("templates from real use (driver 3-group swapper over [(p0,p1),p0,p1]; poloidalTwist variant; 2-group variant; "
+RULE = ("random groupings of random orderings (1 in 6 configurations) and templates from real use (driver 3-group swapper over [(p0,p1),p0,p1]; poloidalTwist variant; 2-group variant; "
         "4-D 2-group variant), each also with a random relabelling of dimensions, permuted group order, varied start "
         "layout; process grids (p0,p1) with p0=p1, p0!=p1 and extents of 1; extents biased to uneven blocks; float64 and "
         "complex128 unique-id payload; per accepted configuration all ordered layout pairs with and without buffer and a "
@@ -28,7 +28,7 @@ RULE = ("templates from real use (driver 3-group swapper over [(p0,p1),p0,p1]; p
         "A class is (template, perturbed?, p0?p1 relation, even|uneven, hop kind from trace, dtype, buffer).")
 ASSUMPTIONS = ["simulated MPI layer (Allgather with explicit MPI.DOUBLE on complex views moves 2x doubles as mpi4py does); self-tested",
                "process counts up to 8 (quick) / 16 (thorough)"]
-REQUIRED_EVENTS = {"Allgather": 1, "Alltoall": 1, "hops_compared": 1, "gather_hops": 1, "scatter_hops": 1, "replica_groups_compared": 1}
+REQUIRED_EVENTS = {"Allgather": 1, "Alltoall": 1, "hops_compared": 1, "gather_hops": 1, "scatter_hops": 1, "replica_groups_compared": 1, "long_redirect_hops": 1}
 CASE_TIMEOUT = {"quick": 300, "thorough": 900}
 
 
@@ -42,16 +42,43 @@ def templates():
                     procs=lambda p0, p1: [[p0, p1], max(p0, p1)], start='mode_find')
     T["two_min"] = dict(nd=3, groups=[{'mode_find': [2, 0, 1], 'mode_solve': [2, 1, 0]}, {'dphi': [0, 1, 2], 'poloidal': [2, 1, 0]}],
                         procs=lambda p0, p1: [[p0, p1], min(p0, p1)], start='mode_find')
+    # a 1-D group whose only connection to the far layouts of the 2-D group is a chain: D->A->B->C is 3 steps
+    T["long3"] = dict(nd=3, groups=[{'A': [0, 1, 2], 'B': [2, 1, 0], 'C': [2, 0, 1]}, {'D': [0, 2, 1]}],
+                      procs=lambda p0, p1: [[p0, p1], p0], start='A')
     T["four"] = dict(nd=4, groups=[{'flux_surface2': [0, 3, 1, 2], 'v_parallel': [0, 2, 1, 3], 'poloidal': [3, 2, 1, 0]},
                                    {'flux_surface1': [0, 3, 1, 2], 'z_surface': [2, 3, 1, 0], 'vr_contig1': [2, 1, 3, 0]}],
                      procs=lambda p0, p1: [[p0, p1], p0], start='flux_surface2')
     return T
 
 
+def _random_template(rng):
+    """random grouping (not derived from real use): 1-3 random orderings on the 2-D group, 1-2 on each 1-D group"""
+    import itertools
+    nd = rng.choice([3, 3, 4])
+    perms = [list(p) for p in itertools.permutations(range(nd))]
+    rng.shuffle(perms)
+    k0, k1 = rng.randint(1, 3), rng.randint(1, 2)
+    k2 = min(rng.randint(0, 2), len(perms) - k0 - k1)
+    g0 = {"a%d" % i: perms.pop() for i in range(k0)}
+    g1 = {"b%d" % i: perms.pop() for i in range(k1)}
+    groups = [g0, g1]
+    third = rng.random() < 0.6 and k2 > 0
+    if third:
+        groups.append({"c%d" % i: perms.pop() for i in range(k2)})
+    order = rng.choice([0, 1])
+
+    def procs(p0, p1):
+        pr = [[p0, p1], (p0, p1)[order]]
+        if third:
+            pr.append((p0, p1)[1 - order])
+        return pr
+    return dict(nd=nd, groups=groups, procs=procs, start="a0")
+
+
 def make_cfg(rng, Pmax, nmax, tname=None, perturb=None):
     T = templates()
-    tname = tname or rng.choice(list(T))
-    t = T[tname]
+    tname = tname or rng.choice(list(T) + ["random"])
+    t = T[tname] if tname != "random" else _random_template(rng)
     nd = t["nd"]
     while True:
         p0 = rng.choice([1, 1, 2, 2, 3, 4, 5])
@@ -109,6 +136,12 @@ def gen_cases(tier, seed):
             cfg = {"template": "driver", "perturbed": False, "p": [p0, p1], "groups": t["groups"], "procs": t["procs"](p0, p1),
                    "start": t["start"], "shape": shape, "dtype": "complex" if (p0 + p1 + shape[0]) % 2 else "float"}
             cases.append({"kind": "cfg", "cfg": cfg, "must_accept": True, "sched_seed": p0 * 10 + p1, "walk": 16, "cost": p0 * p1 * 30})
+    for (p0, p1) in [(2, 2), (2, 3), (3, 2)]:
+        if p0 * p1 <= Pmax:
+            t = templates()["long3"]
+            cases.append({"kind": "cfg", "must_accept": False, "sched_seed": 9, "walk": 20, "cost": 200,
+                          "cfg": {"template": "long3", "perturbed": False, "p": [p0, p1], "groups": t["groups"], "procs": t["procs"](p0, p1), "start": "A",
+                                  "shape": [7, 6, 5], "dtype": "float"}})
     # deterministic witness of the listed known finding (and its complement: same groups, driver order)
     g = templates()["driver"]["groups"]
     cases.append({"kind": "cfg", "must_accept": False, "sched_seed": 5, "walk": 10, "cost": 50,
@@ -213,8 +246,9 @@ def run_case(case):
                     elif group_of[a] == group_of[b]:
                         kind = "ingroup%d" % min(na, 2)
                     elif nsteps > 1:
-                        kind = "redirect"
+                        kind = "redirect" if nsteps == 2 else "redirect3+"
                         out["redirect"] += 1
+                        out["long"] = out.get("long", 0) + (1 if nsteps >= 3 else 0)
                     elif ng == 1:
                         kind = "gather"
                     else:
@@ -287,6 +321,7 @@ def run_case(case):
     ev["gather_hops"] = sum(r["gather"] for r in res)
     ev["scatter_hops"] = sum(r["scatter"] for r in res)
     ev["redirect_hops"] = sum(r["redirect"] for r in res)
+    ev["long_redirect_hops"] = sum(r.get("long", 0) for r in res)
     # replica agreement across ranks
     groups = {}
     for rk, r in enumerate(res):
